@@ -10,7 +10,7 @@ ENGINE = "E-hyp"
 TECHNIQUE = "model-based (stateful) property testing of the exported C API: generated call histories over 1-3 instances against a model of the documented return codes, callback delivery (user/call data) and persistence rules, on a virtual clock"
 RULE = ("cases = histories of <=12 API operations over <=3 instances: create (full/basic/empty operator set, with or without maximum runtime), load_config (valid / "
         "syntax error / preprocess error), call with type in {s, p, 1, a, unknown} and text class in {succeeds, sets/reads a global, runtime error, parse error, preprocess "
-        "failure (unknown directive, missing include), non-terminating (only with a limit), spawns children, arbitrary bytes}, status, clock jump, destroy, calls through a "
+        "failure (unknown directive, missing include), non-terminating and a spawned child sleeping past the limit (only with a limit), spawns children, arbitrary bytes}, status, clock jump, destroy, calls through a "
         "NULL or zeroed handle; non-trivial = a failing or aborted call is followed by another call on the same instance; distinct = SHA-1 of the history")
 LEVEL_TEXT = ("Exploration against a model of the contract in sqfvm.h: every call's return code, the status afterwards, the persistence of globals/config only, and that each "
               "diagnostic reaches the callback with the instance's user data and the call's call data (an unsuccessful call delivers at least one error-level message).")
@@ -32,6 +32,7 @@ TEXTS = {
     "pp_missing_include": ('#include "no\\such\\file.hpp"\n1', False),
     "endless": ("while {true} do {GCNT = 1}", True),
     "endless_sleep": ("sleep 100000; 1", True),
+    "spawn_sleeper": ("[] spawn { sleep 100000; }; 1", True),
     "spawn": ("SP_%d = 0; [] spawn {SP_%d = 1}; [] spawn {sleep 0.01; SP_%d = SP_%d + 1}; 7", True),
     "bytes": (None, False),
     "config_read": ('getNumber (configFile >> "CfgC18" >> "v")', True),
@@ -63,7 +64,7 @@ def _history(draw):
             typ = draw(st.sampled_from(["s"] * 10 + ["p", "p", "1", "1", "?", "?", "a"]))
             classes = ["ok", "setglobal", "readglobal", "runtime_error", "runtime_error_last", "parse_error", "pp_unknown_directive", "pp_missing_include", "spawn", "bytes", "config_read"]
             if limit > 0:
-                classes += ["endless", "endless", "endless_sleep"]
+                classes += ["endless", "endless", "endless_sleep", "spawn_sleeper", "spawn_sleeper"]
             cls = draw(st.sampled_from(classes))
             k += 1
             if cls == "bytes":
@@ -177,7 +178,7 @@ def check(case, env):
                     exp = 0
                 elif not has_ops:
                     exp = None           # no operators registered: most texts cannot run; only general rules
-                elif cls in ("runtime_error", "runtime_error_last", "endless", "endless_sleep"):
+                elif cls in ("runtime_error", "runtime_error_last", "endless", "endless_sleep", "spawn_sleeper"):
                     exp = -6
                 else:
                     exp = 0
